@@ -1,0 +1,58 @@
+//! A statistic slot appended (last) to the global slot chain under the guard.
+//! It changes nothing; it keeps, per thread, what the chain reported for the last entry,
+//! so a harness can read block type / triggering rule / snapshot as structured values.
+
+use crate::base::{BaseSlot, BlockError, EntryContext, StatSlot};
+use lazy_static::lazy_static;
+use std::cell::RefCell;
+use std::sync::Arc;
+
+#[derive(Debug, Clone)]
+pub enum Last {
+    None,
+    Pass,
+    Blocked(BlockError),
+}
+
+thread_local! {
+    static LAST: RefCell<Last> = RefCell::new(Last::None);
+    static COMPLETED: RefCell<u64> = RefCell::new(0);
+}
+
+pub struct RecorderSlot {}
+
+lazy_static! {
+    static ref SLOT: Arc<RecorderSlot> = Arc::new(RecorderSlot {});
+}
+
+pub fn slot() -> Arc<RecorderSlot> {
+    SLOT.clone()
+}
+
+/// What the global chain told its statistic slots for the last entry built on this thread.
+pub fn take_last() -> Last {
+    LAST.with(|l| std::mem::replace(&mut *l.borrow_mut(), Last::None))
+}
+
+/// Number of completion notifications seen on this thread.
+pub fn completed() -> u64 {
+    COMPLETED.with(|c| *c.borrow())
+}
+
+impl BaseSlot for RecorderSlot {
+    fn order(&self) -> u32 {
+        u32::MAX
+    }
+}
+
+impl StatSlot for RecorderSlot {
+    fn on_entry_pass(&self, _ctx: &EntryContext) {
+        LAST.with(|l| *l.borrow_mut() = Last::Pass);
+    }
+    fn on_entry_blocked(&self, _ctx: &EntryContext, block_error: BlockError) {
+        LAST.with(|l| *l.borrow_mut() = Last::Blocked(block_error));
+    }
+    fn on_completed(&self, _ctx: &mut EntryContext) {
+        COMPLETED.with(|c| *c.borrow_mut() += 1);
+    }
+}
